@@ -209,12 +209,62 @@ func VH_C17_cap_cross_message() {
 	alice, bob := NewClient(&vHook{}), NewClient(&vHook{})
 	ma.CapTable = []*Client{alice, bob}
 	mb.CapTable = []*Client{bob, alice}
-	i := CapabilityID(vConc(int(vNondetU8()), 2))
-	j := CapabilityID(vConc(int(vNondetU8()), 2))
+	// indexes 0 and 1 name a capability, 2 (== len(CapTable)) and 3 name none
+	i := CapabilityID(vConc(int(vNondetU8()), 4))
+	j := CapabilityID(vConc(int(vNondetU8()), 4))
 	eq, err := Equal(NewInterface(sa, i).ToPtr(), NewInterface(sb, j).ToPtr())
 	eq2, err2 := Equal(NewInterface(sb, j).ToPtr(), NewInterface(sa, i).ToPtr())
 	vReach("returned")
 	vAssert(err == nil && err2 == nil && eq == eq2, "C17.capx.symmetric")
-	vAssert(eq == (ma.CapTable[i] == mb.CapTable[j]), "C17.capx.by-identity-not-by-index")
+	var ci, cj *Client
+	if i < 2 {
+		ci = ma.CapTable[i]
+	}
+	if j < 2 {
+		cj = mb.CapTable[j]
+	}
+	vAssert(eq == (ci == cj), "C17.capx.by-identity-not-by-index")
 	vAssert(vLocksHeld() == 0, "C17.capx.no-lock-held")
+}
+
+// a value equals its canonical re-encoding (different section sizes, different layout), and its
+// copy into a populated destination of another size
+func VH_C17_equals_reencoding() {
+	_, seg := vNewMsg()
+	s, err := NewRootStruct(seg, ObjectSize{DataSize: 16, PointerCount: 2})
+	vAssume(err == nil)
+	s.SetUint64(0, vNondetU64())
+	const n = 2
+	l, err := NewCompositeList(seg, ObjectSize{DataSize: 8, PointerCount: 1}, n)
+	vAssume(err == nil)
+	for i := 0; i < n; i++ {
+		l.Struct(i).SetUint64(0, vNondetU64())
+		if vConc(int(vNondetU8()), 2) == 1 {
+			vAssume(l.Struct(i).SetData(0, []byte{vNondetU8()}) == nil)
+		}
+	}
+	vAssume(s.SetPtr(0, l.ToPtr()) == nil)
+	out, err := Canonicalize(s)
+	vAssume(err == nil)
+	m := &Message{Arena: SingleSegment(out)}
+	back, err := m.Root()
+	vReach("reencoded")
+	vAssert(err == nil, "C17.reenc.readable")
+	if err != nil {
+		return
+	}
+	eq, err := Equal(s.ToPtr(), back)
+	vAssert(err == nil && eq, "C17.reenc.value-equals-its-canonical-reencoding")
+	eq2, err := Equal(back, s.ToPtr())
+	vAssert(err == nil && eq2, "C17.reenc.symmetric")
+	// copy into a larger, populated struct: still equal
+	_, sb := vNewMsg()
+	dst, err := NewStruct(sb, ObjectSize{DataSize: 24, PointerCount: 3})
+	vAssume(err == nil)
+	dst.SetUint64(0, vNondetU64())
+	dst.SetUint64(8, vNondetU64())
+	dst.SetUint64(16, vNondetU64())
+	vAssume(dst.CopyFrom(s) == nil)
+	eq3, err := Equal(dst.ToPtr(), s.ToPtr())
+	vAssert(err == nil && eq3, "C17.reenc.value-equals-its-copy-into-a-larger-struct")
 }
